@@ -44,6 +44,7 @@ EDITS = (
     "chain-different-columns",
     "chain-different-engines",
     "join-different-engines",
+    "join-different-engines-default-options",
     "calc-unsupported-expression",
     "sort-unsupported-expression",
     "sort-unsupported-equal-to-existing",
@@ -155,7 +156,7 @@ def make_request(edit, rel, node, env, leaves, universe, opts, seed_expr, pick, 
             raise Skip()
         want = set(sorted_tags(cols)[:1]) | {some(missing)}
         return (lambda: rel.with_only_columns(want, **o)), (ColumnError,), f"proj {want}"
-    if edit in ("join-pred-missing-column", "join-different-engines", "chain-different-engines", "chain-different-columns"):
+    if edit in ("join-pred-missing-column", "join-different-engines", "join-different-engines-default-options", "chain-different-engines", "chain-different-columns"):
         # another relation of the program as the second operand
         others = [(n, rels[id(n)]) for n in walk(prog) if id(n) in rels and rels[id(n)] is not rel]
         used = leaf_indices(prog)
@@ -178,6 +179,27 @@ def make_request(edit, rel, node, env, leaves, universe, opts, seed_expr, pick, 
                 raise Skip()
             n2, r2 = cands[pick % len(cands)]
             return (lambda: rel.join(r2, backtrack=False, transfer=False)), (EngineError,), f"join across engines {rel.engine}/{r2.engine}"
+        if edit == "join-different-engines-default-options":
+            # no transfer allowed; backtracking may legitimately move the join to where the engines agree - then the
+            # result is a well-formed tree with the columns of both operands; anything else must be a refusal
+            cands = [(n, r) for n, r in others if r.engine is not rel.engine and not r.is_join_identity and not rel.is_join_identity]
+            cands = [(n, r) for n, r in cands if all(t.is_key for t in set(r.columns) & cols)]
+            if not cands:
+                raise Skip()
+            n2, r2 = cands[pick % len(cands)]
+
+            def call():
+                out = rel.join(r2, transfer=False)
+                if set(out.columns) != cols | set(r2.columns) or out is rel or out is r2:
+                    raise Violation(
+                        "ill-formed-request-accepted",
+                        f"join across engines {rel.engine}/{r2.engine} without transfer returned {str(out)[:200]} with columns {set(out.columns)}, "
+                        f"not the join's columns {cols | set(r2.columns)}; lhs {str(rel)[:160]}; rhs {str(r2)[:160]}",
+                        edit=edit,
+                    )
+                return out
+
+            return call, (EngineError, ColumnError, "wellformed"), f"join across engines {rel.engine}/{r2.engine} (default options, no transfer)"
         if edit == "chain-different-engines":
             cands = [(n, r) for n, r in others if r.engine is not rel.engine and set(r.columns) == cols]
             if not cands:
@@ -308,6 +330,8 @@ def run_case(case, stats):
             out = call()
         except classes as e:
             stats.c[f"rejected:{edit}:{type(e).__name__}"] += 1
+        except Violation:
+            raise
         except Exception as e:
             if is_order_loss(e) and edit.startswith(("join", "chain")):
                 # the other operand ends in an un-sliced sort: a second, equally documented reason to refuse the call
